@@ -464,3 +464,23 @@ Example C07_options_concrete :
   EffOptions.c07_ocase [[w; None]; [w; r50]; [w; r12]] [0; 1; 2]%nat [0; 1; 2]%nat = 4%nat /\
   EffOptions.c07_ocase [[w; None]; [w; r50]; [w; r12]] [0; 0; 2]%nat [0; 0; 2]%nat = 0%nat.
 Proof. vm_compute. repeat split; reflexivity. Qed.
+
+(* ---------------- per-process memos of pure functions (Model/KeyedMemo.v) ---------------- *)
+From Verif Require KeyedMemo KeyedMemoP.
+(* a memo looked up by a key of the argument returns the function's value in every history of calls, from every sound
+   starting memo, if the key determines the value ... *)
+Theorem C07_memo_correct_for_every_history : forall (X Y : Type) (f : X -> Y) (key : X -> nat),
+  KeyedMemo.key_determines_value f key ->
+  forall xs m, KeyedMemo.sound f key m -> snd (KeyedMemo.calls f key m xs) = map f xs.
+Proof. exact @KeyedMemoP.memo_correct_for_every_history. Qed.
+Print Assumptions C07_memo_correct_for_every_history.
+(* ... and only then: two arguments with one key and different values make a two-call history whose second answer is the first's *)
+Theorem C07_memo_wrong_if_key_does_not_determine : forall (X Y : Type) (f : X -> Y) (key : X -> nat) (x x' : X),
+  key x = key x' -> f x <> f x' -> snd (KeyedMemo.calls f key nil (x :: x' :: nil)) <> map f (x :: x' :: nil).
+Proof. exact @KeyedMemoP.memo_wrong_if_key_does_not_determine. Qed.
+Print Assumptions C07_memo_wrong_if_key_does_not_determine.
+Theorem C07_unit_blind_key_refuted :
+  exists (f : nat * nat -> nat) (key : nat * nat -> nat) x x',
+    key x = key x' /\ snd (KeyedMemo.calls f key nil (x :: x' :: nil)) <> map f (x :: x' :: nil).
+Proof. exact KeyedMemoP.unit_blind_key_refuted. Qed.
+Print Assumptions C07_unit_blind_key_refuted.
